@@ -424,6 +424,73 @@ def c02(prop, tier, seed):
                    "non-trivial = length >= 3 containing a relocation, an adjacent-hole growth or a reopen", RAW_ASSUME)
 
 
+# ----------------------------------------------------------------------------------------------
+# import matrix: spec/Import.tla (C14)
+# ----------------------------------------------------------------------------------------------
+def import_cfg(formats, depth, dev, invs, emit):
+    st = lambda xs: "{" + ", ".join('"%s"' % x for x in xs) + "}"
+    lines = ["SPECIFICATION Spec", "CONSTANTS", "  Versions = {1, 2}", f"  Formats = {st(formats)}", f"  Depth = {depth}",
+             f"  Dev = {st(sorted(dev))}", "VIEW HView", "CONSTRAINT DepthOK", "CHECK_DEADLOCK FALSE"]
+    lines += [f"INVARIANT {i}" for i in invs]
+    if emit:
+        lines.append("INVARIANT Emit")
+    return "\n".join(lines) + "\n"
+
+
+@register("C14")
+def c14(prop, tier, seed):
+    known_ids = vlib.all_known_devs()
+    devs = sorted(known_ids & {"D7", "D21"})
+    plans = [(["bytes", "pco", "zerocopy"], q(tier, 4, 5)), (["lz4", "zstd", "bytes"], q(tier, 4, 5))] + q(tier, [], [(["bytes", "zerocopy", "pco", "lz4", "zstd"], 4)])
+    states = trans = behaviours = steps = nontrivial = cut = 0
+    violations, known_seen, samples, runs = [], {}, [], []
+    for formats, depth in plans:
+        wd = vlib.scratch_dir("imp")
+        try:
+            d = vlib.run_tlc("MCImport", import_cfg(formats, depth, [], ["ImportOK"], False), os.path.join(wd, "design"), 4, 600)
+            a = vlib.run_tlc("MCImport", import_cfg(formats, depth, devs, [], True), os.path.join(wd, "asis"), 4, 600)
+            if d["violated"] or a["violated"]:
+                raise ToolError("Import model: %s %s" % (d["violated"], a["violated"]))
+            if not a["distinct"]:
+                raise ToolError("TLC explored nothing")
+            states += d["distinct"] + a["distinct"]; trans += d["generated"] + a["generated"]
+            paths = vlib.maximal_paths(a["emitted"]["REPLAY"])
+            nd = os.path.join(wd, "p.ndjson")
+            vlib.write_ndjson(nd, paths)
+            if not samples:
+                samples.append(["%s(%s)" % (s["op"], ",".join(map(str, s["args"]))) for s in max(paths, key=len)])
+            r = vlib.run_vh(["importreplay", "--in", nd])
+            behaviours += r["behaviours"]; steps += r["steps"]; nontrivial += r["distinct_nontrivial"]; cut += r["cut_permitted"]
+            for k in r["known"]:
+                e = known_seen.setdefault(k["dev"], {"count": 0, "history": k["history"]})
+                e["count"] += k["count"]
+                if len(k["history"]) < len(e["history"]):
+                    e["history"] = k["history"]
+            for v in r["violations"]:
+                v.update({"property": prop, "tier": tier, "seed": seed, "spec": "Import", "steps_full": paths[v["behaviour"]][: v["step"] + 1]})
+                violations.append(v)
+            runs.append({"formats": formats, "depth": depth, "design_states": d["distinct"], "asis_states": a["distinct"], "paths": len(paths)})
+        finally:
+            shutil.rmtree(wd, ignore_errors=True)
+    known_lines = []
+    for dev, e in sorted(known_seen.items()):
+        if dev in known_ids:
+            known_lines.append("%s %s" % (dev, " ".join(e["history"])))
+        else:
+            violations.append({"property": prop, "kind": "unlisted-deviation", "dev": dev, "history": e["history"]})
+    cov = {"states": states, "transitions": trans, "traces_validated_against_impl": behaviours, "samples": samples, "evaluations": steps,
+           "distinct_nontrivial": nontrivial, "exhaustive": True, "runs": runs, "cut_after_permitted_divergence": cut,
+           "deviations_taken": {k: v["count"] for k, v in known_seen.items()},
+           "rule": "all sequences of import(entry, version, format) / fill+flush / delete+flush up to the depth, over versions {1,2}, both entry points and the "
+                   "listed formats (so every (stored version, requested version, stored format, requested format, creating entry, reopening entry) "
+                   "combination with and without data and auxiliary regions); non-trivial = at least two imports",
+           "checker_cmd": "tlc MCImport.tla ; vh importreplay"}
+    return {"level": "model_checking", "coverage": cov,
+            "assumptions": ["element type u32, index type usize", "lock / I/O errors during import are not injected (the 'never on lock or I/O errors' clause is decided only by "
+                            "the model's case analysis of the error kinds that trigger a reset)"],
+            "violations": violations, "known": known_lines}
+
+
 def merge(results):
     out = results[0]
     for r in results[1:]:
@@ -475,6 +542,20 @@ def replay(prop, path):
             vlib.write_ndjson(nd, [v["steps_full"]])
             r = vlib.run_vh(["vecreplay", "--in", nd, "--format", v["format"], "--type", v["type"], "--k", str(v["K"]),
                              "--block", str(v["block"])])
+        finally:
+            shutil.rmtree(wd, ignore_errors=True)
+        if r["violations"]:
+            print(json.dumps(r["violations"][0], indent=1))
+            print(f"VIOLATION property={prop} replay={path}")
+            return 1
+        print("replay: no violation")
+        return 0
+    if v.get("spec") == "Import" and v.get("steps_full"):
+        wd = vlib.scratch_dir("replay")
+        try:
+            nd = os.path.join(wd, "one.ndjson")
+            vlib.write_ndjson(nd, [v["steps_full"]])
+            r = vlib.run_vh(["importreplay", "--in", nd])
         finally:
             shutil.rmtree(wd, ignore_errors=True)
         if r["violations"]:
